@@ -23,7 +23,7 @@ ASSUMPTIONS = [
     "the static convert_to_sg_motl is given the class' own (index-reset) table, as the class paths do",
     "subtomogram numbers are integers of either sign (parity defines the half-set: -3 is odd)",
 ]
-BUDGET = {"quick": {"examples": 1100, "seconds": 85}, "thorough": {"examples": 5000, "seconds": 540}}
+BUDGET = {"quick": {"examples": 1800, "seconds": 85}, "thorough": {"examples": 5000, "seconds": 540}}
 
 PAIRS = [  # (cryoCAT field, STOPGAP column) - written from the STOPGAP motive-list documentation, not imported from cryoCAT
     ("subtomo_id", "subtomo_num"), ("tomo_id", "tomo_num"), ("object_id", "object"), ("x", "orig_x"), ("y", "orig_y"),
